@@ -38,7 +38,14 @@ LEVEL_TEXT = (
 LEVEL_NOTE = "Trusted: CPython ast / inspect, Hypothesis."
 TECHNIQUE = "property-based testing (Hypothesis): generated schemas + signatures, structural oracle over the parsed stub"
 
-ANNOTATIONS = [None, None, "int", "str", "bool", "float", "bytes", "None", "'Config'", "'typing.List[str]'", "typing.List[int]",
+def _make_local():
+    class LocalThing:  # a class created by a class statement inside a function (its __qualname__ has '<locals>')
+        pass
+    return LocalThing
+
+
+LocalThing = _make_local()
+ANNOTATIONS = [None, None, "LocalThing", "typing.List[LocalThing]", "int", "str", "bool", "float", "bytes", "None", "'Config'", "'typing.List[str]'", "typing.List[int]",
                "typing.Optional[str]", "typing.Dict[str, int]", "typing.Any", "list", "dict", "typing.Union[int, str]", "typing.Callable[[int], str]"]
 PNAMES = ["a", "b", "c", "x", "y", "value", "key", "flag", "n", "items"]
 
@@ -128,7 +135,7 @@ def run_case(case, R):
         funcs = {}
         for i, m in enumerate(case["methods"]):
             key = "do_%d" % i
-            ns = {"typing": typing, "Config": cc.Config}
+            ns = {"typing": typing, "Config": cc.Config, "LocalThing": LocalThing}
             exec(compile(_source(key, m), "<generated>", "exec"), ns)  # harness-generated source only
             funcs[key] = ns[key]
             cc.instance_method(schema, key)(ns[key])
@@ -140,6 +147,8 @@ def run_case(case, R):
             if m["varkw"]:
                 R.label("param:varkw")
             anns = [p["ann"] for p in m["pos"] + m["kwonly"]] + [m["ret"]]
+            if any(a and "LocalThing" in a for a in anns):
+                R.label("ann:local-class")
             if any(a and a.startswith("typing.") for a in anns):
                 R.label("ann:generic")
             if any(a and a.startswith("'") for a in anns):
